@@ -10,7 +10,7 @@ from ..core import hexs, unhex, sx_parse, sx_str
 from ..runner import Stream
 
 ID = "C17"
-AREAS = ["aottext"]
+AREAS = ["aottext", "fish"]
 RULE = ("esc: every string over the boundary alphabet {' \" \\ $ ( ) ` [ ] : LF CR TAB SP a e-acute U+2018 U+2019 "
         "U+201A U+201B #} up to a length bound (sampled at the longest length) x every escape function, plus random "
         "longer strings; script: random command trees (depth <= 3; flags, options with and without possible values, "
@@ -31,6 +31,8 @@ TRUSTED = [
     "correspondence: vp/props/c17.py generators, harness/src/modes/aottext.rs, vp/shell_lex.py (python port of the "
     "machines, compared with the extracted machines on every run)",
     "modelled not verified: str::replace of Rust core (its specification is proved of the model), StyledStr::to_string",
+    "fish generator model Complete/FishModel.v + ocaml/fish_driver.ml (see C16): tied by stream fish-model, both files of "
+    "the script mode compared byte for byte",
 ]
 ASSUMPTIONS = [
     "strings are sequences of Unicode scalar values (Rust &str); scripts are read as UTF-8",
@@ -512,6 +514,31 @@ def gen_script(tier, rng):
     return cases, dist
 
 
+# ---- fish generator model ----
+def fish_model_streams(tier, rng):
+    """the byte-exact Gallina model of fish.rs (Complete/FishModel.v, driver ocaml/fish_driver.ml) against the real
+    generator on trees whose every text slot carries adversarial text: both files of the `script` mode (the texts as
+    given / innocuous text of the same emptiness) are compared byte for byte"""
+    dist = {}
+    g = TreeGen(rng, dist)
+    cases = []
+    for t in HAND[::2] if tier == "quick" else HAND:
+        h = hexs(t)
+        cases.append("(script fish (cmd app (about %s) (arg a1 (short x61) (long lo-ng1) (help %s)) "
+                     "(arg a2 (long lo-ng2) (takes) (pv v1 %s) (pvhide v2 %s) (pv v3) (help %s)) (arg a3 (pos) (help %s)) "
+                     "(sub (cmd sub-c1 (about %s) (alias sal1) (arg a4 (short x62) (global) (help %s)) "
+                     "(sub (cmd sub-c2 (about %s) (sub (cmd sub-c3 (about %s) (arg a5 (short x63) (help %s))))))))))"
+                     % ((h,) * 11))
+    for _ in range(120 if tier == "quick" else 2500):
+        g.n = 0
+        g.global_shorts = list("0123456789")
+        cases.append("(script fish %s)" % g.cmd("app", 0))
+    return [Stream("fish-model", cases, oracle=script_oracle, area="fish", nontrivial=script_nontrivial,
+                   describe={"slot x character class (texts generated)": dict(sorted(dist.items())),
+                             "trees": len(cases)})]
+# ---- end fish generator model ----
+
+
 def streams(tier, rng):
     esc = gen_esc(tier, rng)
     lexport = gen_lexport(tier, rng)
@@ -533,7 +560,7 @@ def streams(tier, rng):
         Stream("script", script, oracle=script_oracle, area=None, nontrivial=script_nontrivial,
                describe={"slot x character class (texts generated)": dict(sorted(dist.items())),
                          "shells": SHELLS, "trees": len(script) // len(SHELLS)}),
-    ]
+    ] + fish_model_streams(tier, rng)
 
 
 NAME_SPECIAL = re.compile(r"\((?:cmd|long|alias|valias|bin) (?!x[0-9a-f]*[ )])[^ ()]*['\"`$\\\\|;&<>*?!#~{}\[\]][^ ()]*")
@@ -559,16 +586,23 @@ def classify_known(stream, case, impl, failure):
 
 
 TECHNIQUE = ("Coq proof (str::replace model + per-shell lexer machines: escaped text is transparent in its quoting "
-             "context) + extracted-model/implementation correspondence + token-skeleton oracle on the real scripts")
+             "context; for fish composed through a byte-exact generator model to whole-script structure invariance) + "
+             "extracted-model/implementation correspondence + token-skeleton oracle on the real scripts")
 LEVEL_TEXT = ("Machine-checked theorems (Coq 8.16, closed under the global context): a model of str::replace meets its "
               "specification; every escape function of the fish, zsh, PowerShell, elvish and nushell generators, as "
               "the composition of the .replace chains read off the current Rust source, is read back by the model of "
               "that shell's lexer -- for every string and every continuation -- as literal payload only, leaving the "
               "lexer in the state it was in, with the payload equal to the (newline-flattened) text; bash reads no "
-              "descriptive text.  The model is tied to clap_complete by running the extracted escape functions and the "
-              "real ones (hook) on the same strings on every check, and an independent oracle tokenises the real "
+              "descriptive text.  fish, whole script: in a byte-exact model of the fish generator (every slot typed by "
+              "the escape and quoting context it is written in) the token skeleton and final lexer state of the ENTIRE "
+              "generated file are the same for any two assignments of about/help/possible-value-help texts with the same "
+              "presence shape, and every text contributes literal payload only, for all command trees whose names "
+              "contain no quote, backslash or hash byte (boundary witness: an option name with a double quote) -- stated for "
+              "the built tree and, since Command::build keeps names tame and treats the texts uniformly, for generate() on "
+              "the command tree as the user wrote it.  The models are tied to clap_complete by running the extracted escape functions and the "
+              "real ones (hook) on the same strings and the extracted fish generator model and the real generator on the same trees (files compared byte for byte) on every check, and an independent oracle tokenises the real "
               "generated scripts (adversarial vs innocuous text in every slot) and compares token skeletons.")
-LEVEL_NOTE = ("Trusted: Coq kernel, extraction, OCaml driver, Rust harness, generators, the shell lexer models (only "
+LEVEL_NOTE = ("Trusted: Coq kernel, extraction, OCaml drivers, Rust harness, generators, the shell lexer models (only "
               "bash can be executed here), the table translator.  Which slot is emitted through which escape "
               "function is checked on the real scripts only (oracle), not proved.")
 
@@ -640,5 +674,5 @@ LEVEL_TEXT = (LEVEL_TEXT +
               "(names are written unescaped; witness replayed on the real generators).")
 LEVEL_NOTE = ("Trusted: Coq kernel, extraction, OCaml drivers, Rust harness, generators, the shell lexer models (only "
               "bash can be executed here), the table translator.  Which slot is emitted through which escape "
-              "function is proved for PowerShell and elvish (generator models, tied byte for byte on every run) and "
-              "checked on the real scripts only (oracle) for zsh, fish and nushell.")
+              "function is proved for fish, PowerShell and elvish (generator models, tied byte for byte on every run) and "
+              "checked on the real scripts only (oracle) for zsh and nushell.")
